@@ -39,6 +39,7 @@ def run(ck):
     ck.rule("C06.R7", "a filtered layer's current span comes from the thread's entered-span stack, not from parent links (as C07.R3)", floor=1)
     ck.rule("C06.R6", "collector wrappers forward enter/exit/new_span/current_span and the reference counting that keeps ancestors alive (as C09.R1/R2)", floor=15)
     ck.rule("C06.R9", "enter / exit / current_span / new_span reach the registry through Dispatch unchanged (as C09.R4)", floor=4)
+    ck.rule("C06.R10", "root / contextual / explicit parent is encoded and decoded consistently: Attributes and Event constructors store the Parent variant their name says, and is_root / is_contextual / parent read back exactly that variant", floor=10)
     ck.rule("C06.R5", "captured span traces hold counted handles and are read back through the handle's own collector", floor=2)
     ck.rule("C06.R8", "every macro form hands the written `parent:` (a span, or None for an explicit root) to the constructor, and only contextual forms use the current span", floor=300)
     r1(ck, F)
@@ -47,6 +48,7 @@ def run(ck):
     r4(ck, F)
     r5(ck, F)
     r8(ck)
+    r10(ck, F)
     from rules import C09 as _C09
     _C09.dispatch_forwarding(ck, F, rid="C06.R9", only={"enter", "exit", "current_span", "new_span"})
     from rules import C07
@@ -378,3 +380,64 @@ def r8(ck):
             ck.bad("C06.R8", vkey, where(b.raw["sp"]), problem + " (fixture %s)" % fname, fn=b.path)
         else:
             ck.ok("C06.R8", "%s [%s!]" % (fname, exp["macro"]), fn=b.path, nontrivial=want is not None)
+
+
+def r10(ck, F):
+    """Between the macros (R8) and the registry's parent table (R3) sits a three-valued tag. Variant order comes from the
+    ADT facts, so the rule follows a reordering of the enum."""
+    adt = F.adts.get("tracing_core::parent::Parent")
+    if not ck.anchor("C06.R10", "tracing_core::parent::Parent", adt):
+        return
+    idx = {v["name"]: i for i, v in enumerate(adt["variants"])}
+    for pre, nm in (("tracing_core::span::Attributes::<'a>::", "Attributes"), ("tracing_core::event::Event::<'a>::", "Event")):
+        ctor = {"new": "Parent::Current{}", "new_root": "Parent::Root{}"} if nm == "Attributes" else {"new": "Parent::Current{}"}
+        for m, want in ctor.items():
+            b = F.body(pre + m)
+            if not ck.anchor("C06.R10", "%s::%s" % (nm, m), b):
+                continue
+            rets = [show(p.ret) for p in PathEval(b).run() if p.end == "return"]
+            key = "%s::%s stores %s" % (nm, m, want[:-2])
+            if len(rets) == 1 and rets[0].endswith(", %s}" % want):
+                ck.ok("C06.R10", key, fn=b.path)
+            else:
+                ck.bad("C06.R10", key, where(b.raw["sp"]), "builds %s" % rets, fn=b.path)
+        # explicit: child_of(parent, ..) / new_child_of(parent: Option<Id>, ..)
+        m = "child_of" if nm == "Attributes" else "new_child_of"
+        b = F.body(pre + m)
+        if ck.anchor("C06.R10", "%s::%s" % (nm, m), b):
+            rows = [([(show(c[0]), c[1]) for c in p.conds], show(p.ret)) for p in PathEval(b).run() if p.end == "return"]
+            key = "%s::%s stores the given parent as Explicit%s" % (nm, m, "" if nm == "Attributes" else " (None -> Root)")
+            if nm == "Attributes":
+                ok = len(rows) == 1 and rows[0][1].endswith("Parent::Explicit{arg1}}")
+            else:
+                ok = len(rows) == 2 and all((("Parent::Root{}" in r) if any(v == 0 for t, v in c) else ("Parent::Explicit{(into(arg1) as Some).0}" in r)) for c, r in rows)
+            if ok:
+                ck.ok("C06.R10", key, fn=b.path)
+            else:
+                ck.bad("C06.R10", key, where(b.raw["sp"]), "rows %s" % rows, fn=b.path)
+        for m, var in (("is_root", "Root"), ("is_contextual", "Current")):
+            b = F.body(pre + m)
+            if not ck.anchor("C06.R10", "%s::%s" % (nm, m), b):
+                continue
+            rows = {}
+            for p in PathEval(b).run():
+                if p.end == "return":
+                    d = [c for c in p.conds if show(c[0]) == "discr(arg1.parent)"]
+                    rows[d[0][1] if d else "?"] = show(p.ret)
+            key = "%s::%s is true exactly for Parent::%s" % (nm, m, var)
+            if rows.get(idx[var]) == "1" and all(v == "0" for k, v in rows.items() if k != idx[var]) and len(rows) >= 2:
+                ck.ok("C06.R10", key, fn=b.path)
+            else:
+                ck.bad("C06.R10", key, where(b.raw["sp"]), "rows %s (variant indices %s)" % (rows, idx), fn=b.path)
+        b = F.body(pre + "parent")
+        if ck.anchor("C06.R10", "%s::parent" % nm, b):
+            rows = {}
+            for p in PathEval(b).run():
+                if p.end == "return":
+                    d = [c for c in p.conds if show(c[0]) == "discr(arg1.parent)"]
+                    rows[d[0][1] if d else "?"] = show(p.ret)
+            key = "%s::parent yields the id exactly for Parent::Explicit" % nm
+            if rows.get(idx["Explicit"], "").startswith("Option::Some{(arg1.parent as Explicit).0") and all(v.startswith("Option::None") for k, v in rows.items() if k != idx["Explicit"]):
+                ck.ok("C06.R10", key, fn=b.path)
+            else:
+                ck.bad("C06.R10", key, where(b.raw["sp"]), "rows %s" % rows, fn=b.path)
